@@ -73,6 +73,7 @@ fn main() {
         "overflow" => overflow::run(seed, cases, &mut sink),
         "leafupd" => leafupd::run(seed, cases, &mut sink),
         "branchupd" => branchupd::run(seed, cases, &mut sink),
+        "branchupd-firstleaf" => branchupd::first_leaf_scenario(&mut sink),
         "core-pp" => core_pp::run(seed, cases, &mut sink),
         "core-mp" => core_mp::run(seed, cases, &mut sink),
         "core-mp-corpus" => {
